@@ -269,9 +269,11 @@ func (this *RippleExtraInfo) Deserialization(source *common.ZeroCopySource) erro
 	if eof {
 		return fmt.Errorf("RippleExtraInfoParam deserialize length of pk array error")
 	}
-	pks := make([][]byte, l)
+	pks := make([][]byte, 0)
 	for i := uint64(0); i < l; i++ {
-		pks[i], eof = source.NextVarBytes()
+		var pk []byte
+		pk, eof = source.NextVarBytes()
+		pks = append(pks, pk)
 		if eof {
 			return fmt.Errorf("RippleExtraInfoParam deserialize no.%d pk error", i+1)
 		}
